@@ -64,6 +64,21 @@ type c09Load struct {
 }
 
 // c09DoLoad reloads the current state of src (a log stored in d) through loader kind with limit n.
+// the loaders are handed ONE LogOptions value per loader kind for the whole run, as an application that
+// keeps its options around does (only the fields that legitimately vary are set before each call)
+var c09SharedOpts = map[int]*ipfslog.LogOptions{}
+
+func c09Opts(kind int, id string) *ipfslog.LogOptions {
+	o, ok := c09SharedOpts[kind]
+	if !ok {
+		o = &ipfslog.LogOptions{}
+		c09SharedOpts[kind] = o
+	}
+	o.ID = id
+	o.IO = c11IO()
+	return o
+}
+
 func c09DoLoad(d *c11Dag, src *ipfslog.IPFSLog, kind, n, conc int, forced bool, choose func(int) int, delay int, seed int64) *c09Load {
 	ctx := context.Background()
 	ld := &c09Load{kind: kind, n: n, src: c09Snapshot(src), idGiven: src.GetID()}
@@ -85,21 +100,21 @@ func c09DoLoad(d *c11Dag, src *ipfslog.IPFSLog, kind, n, conc int, forced bool, 
 		ignore[mh] = true
 		ld.starts = src.ToJSONLog().Heads
 		loadFn = func(ctx context.Context) (*ipfslog.IPFSLog, error) {
-			return ipfslog.NewFromMultihash(ctx, d.api, ident, mh, &ipfslog.LogOptions{IO: c11IO()}, &ipfslog.FetchOptions{Length: lenp, Concurrency: conc})
+			return ipfslog.NewFromMultihash(ctx, d.api, ident, mh, c09Opts(kind, ""), &ipfslog.FetchOptions{Length: lenp, Concurrency: conc})
 		}
 	case c09EntryHash:
 		hs := src.Heads().Slice()
 		h := hs[0].GetHash()
 		ld.starts = []cid.Cid{h}
 		loadFn = func(ctx context.Context) (*ipfslog.IPFSLog, error) {
-			return ipfslog.NewFromEntryHash(ctx, d.api, ident, h, &ipfslog.LogOptions{ID: ld.idGiven, IO: c11IO()}, &ipfslog.FetchOptions{Length: lenp, Concurrency: conc})
+			return ipfslog.NewFromEntryHash(ctx, d.api, ident, h, c09Opts(kind, ld.idGiven), &ipfslog.FetchOptions{Length: lenp, Concurrency: conc})
 		}
 	case c09JSON:
 		jl := src.ToJSONLog()
 		ld.starts = jl.Heads
 		r.conc = 32 // NewFromJSON does not forward Concurrency: the fetcher's default applies
 		loadFn = func(ctx context.Context) (*ipfslog.IPFSLog, error) {
-			return ipfslog.NewFromJSON(ctx, d.api, ident, jl, &ipfslog.LogOptions{IO: c11IO()}, &entry.FetchOptions{Length: lenp, Concurrency: conc})
+			return ipfslog.NewFromJSON(ctx, d.api, ident, jl, c09Opts(kind, ""), &entry.FetchOptions{Length: lenp, Concurrency: conc})
 		}
 	case c09Entries:
 		hs := src.Heads().Slice()
@@ -111,7 +126,7 @@ func c09DoLoad(d *c11Dag, src *ipfslog.IPFSLog, kind, n, conc int, forced bool, 
 		}
 		supplied := append([]iface.IPFSLogEntry{}, hs...)
 		loadFn = func(ctx context.Context) (*ipfslog.IPFSLog, error) {
-			return ipfslog.NewFromEntry(ctx, d.api, ident, supplied, &ipfslog.LogOptions{IO: c11IO()}, &entry.FetchOptions{Length: lenp, Concurrency: conc})
+			return ipfslog.NewFromEntry(ctx, d.api, ident, supplied, c09Opts(kind, ""), &entry.FetchOptions{Length: lenp, Concurrency: conc})
 		}
 	}
 	r.starts = ld.starts
